@@ -295,7 +295,7 @@ Proof. vm_compute. repeat split. Qed.
     [src_call]).  The accept / reject decisions, the choice of the enclosing period and of the
     denominator, and the option dispatch that the theorems above are about are the ones
     written in the source now (the single statements are in props/GuardsTie.v). *)
-From Verif Require Import Guards GuardsSem GuardsProofs.
+From Verif Require Import GuardsTypes Guards GuardsSem GuardsProofs.
 
 Theorem source_guards_are_model_guards :
   (forall x p, check_consistency x p
